@@ -472,3 +472,21 @@ for which in ("state", "parameter"):
     c.enum_params = {"name": ["states" if which == "state" else "parameters", "x"], "code": [""], "CASE": _INITS}
     c.params = {"name": "PyStr", "code": "PyStr", "CASE": "any"}
     c.where = {f"{which}_names": "CASE[0]", f"{which}_values": "CASE[1]"}
+
+
+# a printer override may call a sibling method of its class: look it up in the class under verification and execute it
+def _printer_attr_fallback(ctx, st, rec, attr):
+    cls_q = ctx.qualname.rsplit(".", 1)[0]
+    from pyvc import extract
+    try:
+        extract.find_function(f"{cls_q}.{attr}")
+    except extract.ExtractError:
+        raise Unsupported(f"record PrinterHoles has no field {attr}")
+    from pyvc.values import FuncRef
+
+    def impl(c, s_, *a, **k):
+        return c.inline_concrete(FuncRef(f"{cls_q}.{attr}"), [rec] + list(a), k, s_)
+    return BoundMethod(rec, attr, impl)
+
+
+registry.RECORD_ATTR_FALLBACK = {"PrinterHoles": _printer_attr_fallback}
